@@ -167,3 +167,18 @@ def case_key(case: Any) -> str:
     return hashlib.blake2b(json.dumps(case, sort_keys=True,
                                       default=str).encode(),
                            digest_size=10).hexdigest()
+
+
+def hang_is_violation(clause: str, what: str):
+    """timeout_violation callback for stages in which the property needs a
+    RESULT (a pass must deliver, a session must complete): a case that does
+    not answer within the watchdog, and again within the doubled watchdog, is
+    a violation of that clause."""
+
+    def cb(case):
+        import json
+        return (clause, ("no-result-hang",),
+                f"{what} never returned; case "
+                f"{json.dumps(case, default=str)[:1500]}")
+
+    return cb
